@@ -529,6 +529,33 @@ func vfC06StuckRelays() (int, string) {
 	return n, sample
 }
 
+// vfC06Group replaces sync.WaitGroup inside bubbles. With go1.25.0 a WaitGroup.Wait inside a
+// bubble is occasionally NOT treated as durably blocking (seen in goroutine dumps as
+// "[sync.WaitGroup.Wait, synctest bubble N]" without "(durable)"), which freezes the bubble's
+// clock for ever. Channel operations do not depend on that association mechanism.
+// Go and Wait must be called from one goroutine.
+type vfC06Group struct {
+	n  int
+	ch chan struct{}
+}
+
+func (g *vfC06Group) Go(f func()) {
+	if g.ch == nil {
+		g.ch = make(chan struct{}, 256)
+	}
+	g.n++
+	go func() {
+		defer func() { g.ch <- struct{}{} }()
+		f()
+	}()
+}
+
+func (g *vfC06Group) Wait() {
+	for ; g.n > 0; g.n-- {
+		<-g.ch
+	}
+}
+
 // ---------------------------------------------------------------- world runtime
 
 type vfC06UserRT struct {
@@ -728,13 +755,11 @@ func (run *vfC06Run) drive(rs *vfC06RS) {
 			time.Sleep(time.Duration(sp.LingerMs) * time.Millisecond)
 		}
 	}
-	var wg sync.WaitGroup
+	var wg vfC06Group
 	switch sp.Mode {
 	case "quiesce":
-		wg.Add(2)
-		go func() { defer wg.Done(); run.write(rs, vfC06Up, conn, 0, int64(sp.Up), rUp, -1) }()
-		go func() {
-			defer wg.Done()
+		wg.Go(func() { run.write(rs, vfC06Up, conn, 0, int64(sp.Up), rUp, -1) })
+		wg.Go(func() {
 			if run.wait(u, rs.dialed) == "ok" {
 				run.write(rs, vfC06Down, rs.harness, 0, int64(sp.Down), rDown, -1)
 			}
@@ -773,9 +798,7 @@ func (run *vfC06Run) drive(rs *vfC06RS) {
 		}
 		setShape(vfC06Down, "ii", int64(sp.Down), res)
 	case "c_close_mid":
-		wg.Add(1)
-		go func() {
-			defer wg.Done()
+		wg.Go(func() {
 			if run.wait(u, rs.dialed) == "ok" {
 				run.write(rs, vfC06Down, rs.harness, 0, int64(sp.Down), rDown, -1)
 			}
@@ -784,18 +807,15 @@ func (run *vfC06Run) drive(rs *vfC06RS) {
 		run.closeClient(rs)
 		wg.Wait()
 	case "t_close_mid":
-		wg.Add(1)
-		go func() { defer wg.Done(); run.write(rs, vfC06Up, conn, 0, int64(sp.Up), rUp, -1) }()
+		wg.Go(func() { run.write(rs, vfC06Up, conn, 0, int64(sp.Up), rUp, -1) })
 		if run.wait(u, rs.dialed) == "ok" {
 			run.write(rs, vfC06Down, rs.harness, 0, int64(sp.Down), rDown, int64(sp.CutAt))
 			run.closeTarget(rs)
 		}
 		wg.Wait()
 	case "both_close":
-		wg.Add(2)
-		go func() { defer wg.Done(); run.write(rs, vfC06Up, conn, 0, int64(sp.Up), rUp, -1) }()
-		go func() {
-			defer wg.Done()
+		wg.Go(func() { run.write(rs, vfC06Up, conn, 0, int64(sp.Up), rUp, -1) })
+		wg.Go(func() {
 			if run.wait(u, rs.dialed) == "ok" {
 				run.write(rs, vfC06Down, rs.harness, 0, int64(sp.Down), rDown, -1)
 			}
@@ -815,9 +835,7 @@ func (run *vfC06Run) drive(rs *vfC06RS) {
 		}
 		wg.Wait()
 	case "c_close_on_veto":
-		wg.Add(1)
-		go func() {
-			defer wg.Done()
+		wg.Go(func() {
 			if run.wait(u, rs.dialed) == "ok" {
 				run.write(rs, vfC06Down, rs.harness, 0, int64(sp.Down), rDown, -1)
 			}
@@ -826,18 +844,15 @@ func (run *vfC06Run) drive(rs *vfC06RS) {
 		run.closeClient(rs)
 		wg.Wait()
 	case "t_close_on_veto":
-		wg.Add(1)
-		go func() { defer wg.Done(); run.write(rs, vfC06Up, conn, 0, int64(sp.Up), rUp, -1) }()
+		wg.Go(func() { run.write(rs, vfC06Up, conn, 0, int64(sp.Up), rUp, -1) })
 		run.wait(u, u.pending)
 		if run.wait(u, rs.dialed) == "ok" {
 			run.closeTarget(rs)
 		}
 		wg.Wait()
 	case "t_error":
-		wg.Add(2)
-		go func() { defer wg.Done(); run.write(rs, vfC06Up, conn, 0, int64(sp.Up), rUp, -1) }()
-		go func() {
-			defer wg.Done()
+		wg.Go(func() { run.write(rs, vfC06Up, conn, 0, int64(sp.Up), rUp, -1) })
+		wg.Go(func() {
 			if run.wait(u, rs.dialed) == "ok" {
 				run.write(rs, vfC06Down, rs.harness, 0, int64(sp.Down), rDown, -1)
 			}
@@ -991,16 +1006,13 @@ func vfC06RunCase(t *testing.T, k *vfKit, c vfC06Case) {
 		if c.LossPct > 0 {
 			w.Router.SetLoss(c.LossPct, k.Rand(c.CaseID+"/loss"))
 		}
-		var all sync.WaitGroup
+		var all vfC06Group
 		for _, u := range run.users {
-			all.Add(1)
-			go func() {
-				defer all.Done()
-				var wg sync.WaitGroup
+			all.Go(func() {
+				var wg vfC06Group
 				for _, ri := range u.sp.Relays {
 					rs := run.relays[ri]
-					wg.Add(1)
-					go func() { defer wg.Done(); run.drive(rs) }()
+					wg.Go(func() { run.drive(rs) })
 				}
 				wg.Wait()
 			}()
@@ -1021,8 +1033,7 @@ func vfC06RunCase(t *testing.T, k *vfKit, c vfC06Case) {
 			fired := u.vetoFired
 			u.mu.Unlock()
 			if fired {
-				all.Add(1)
-				go func() { defer all.Done(); run.probeAfterVeto(u) }()
+				all.Go(func() { run.probeAfterVeto(u) })
 			}
 		}
 		all.Wait()
